@@ -89,7 +89,7 @@ def b_arp(L):
 
 
 def b_ipv4(L):
-  return pkt.ipv4(v=L["v"], hl=L["hl"], tos=L["tos"], id=L["ident"], flags=L["flags"], frag=L["frag"],
+  return pkt.ipv4(v=L["v"], hl=L["hl"], tos=L["tos"], id=L["ident"], flags=(L["rf"] << 2) | (L["df"] << 1) | L["mf"], frag=L["frag"],
                   ttl=L["ttl"], protocol=L["protocol"], srcip=ip4(L["srcip"]), dstip=ip4(L["dstip"]),
                   raw_options=bytes(L["opts"]))
 
@@ -239,29 +239,241 @@ def b_lldp(L):
   return o
 
 
+# ---- the long tail
+
+def signed32(b):
+  n = u(b)
+  return n - (1 << 32) if n >= (1 << 31) else n
+
+
+def b_gre(L):
+  o = pkt.gre(type=L["type"], recursion=L["recur"], ver=L["ver"])
+  if L["c"]:
+    o.csum = True                 # "compute it when packing"
+    o.route_offset = L["offset"]
+  if L["k"]:
+    o.key = u(L["key"])
+  if L["sq"]:
+    o.seq = u(L["seq"])
+  return o
+
+
+def b_vxlan(L):
+  return pkt.vxlan(vni=L["vni"] if L["flags"] & 8 else None)
+
+
+def b_igmp(L):
+  return pkt.igmp(ver_and_type=L["vtype"], max_response_time=L["mrt"], address=ip4(L["group"]))
+
+
+def b_igmp3(L):
+  recs = [IGMP.GroupRecord(type=r["t"], aux=bytes(r["aux"]), source_addresses=[ip4(a) for a in r["srcs"]],
+                           address=ip4(r["group"])) for r in L["recs"]]
+  return pkt.igmp(ver_and_type=0x22, group_records=recs)
+
+
+def b_rip(L):
+  ents = [RIP.RIPEntry(address_family=e["af"], route_tag=e["tag"], ip=ip4(e["ip"]), netmask=ip4(e["mask"]),
+                       next_hop=ip4(e["nexthop"]), metric=signed32(e["metric"])) for e in L["entries"]]
+  return pkt.rip(command=L["command"], version=L["version"], entries=ents)
+
+
+def b_eapol(L):           # L: completed layer (the library has no length computation here: the caller supplies it)
+  return pkt.eapol(version=L["version"], type=L["type"], bodylen=L["bodylen"])
+
+
+def b_eap(L):
+  return pkt.eap(code=L["code"], id=L["ident"], length=L["length"])
+
+
+def dhcp_opt(k, d):
+  d = bytes(d)
+  if k == 53 and len(d) == 1:
+    return DHCP.DHCPMsgTypeOption(d[0])
+  if k in (1, 28, 50, 54) and len(d) == 4:
+    return DHCP._dhcp_option_unpackers[k].__self__(ip4(d))
+  if k in (3, 4, 6) and len(d) % 4 == 0:
+    return DHCP._dhcp_option_unpackers[k].__self__([ip4(d[i:i + 4]) for i in range(0, len(d), 4)])
+  if k in (51, 58, 59) and len(d) == 4:
+    return DHCP._dhcp_option_unpackers[k].__self__(u(d))
+  if k == 55:
+    return DHCP.DHCPParameterRequestOption(list(d))
+  return DHCP.DHCPRawOption(d)
+
+
+def dhcp_opt_view(k, o):
+  if isinstance(o, (bytes, bytearray)):
+    return {"k": k, "d": list(o)}
+  if isinstance(o, DHCP.DHCPMsgTypeOption):
+    d = [o.type]
+  elif isinstance(o, DHCP.DHCPIPOptionBase):
+    d = list(o.addr.raw)
+  elif isinstance(o, DHCP.DHCPIPsOptionBase):
+    d = [x for a in o.addrs for x in a.raw]
+  elif isinstance(o, DHCP.DHCPSecondsOptionBase):
+    d = bl(o.seconds, 4)
+  elif isinstance(o, DHCP.DHCPParameterRequestOption):
+    d = list(o.options)
+  elif isinstance(o, DHCP.DHCPOptionOverloadOption):
+    d = [o.value]
+  else:
+    d = list(o.data)
+  return {"k": k, "d": d}
+
+
+def b_dhcp(L):
+  ch = bytes(L["chaddr"])
+  o = pkt.dhcp(op=L["op"], htype=L["htype"], hlen=L["hlen"], hops=L["hops"], xid=u(L["xid"]), secs=L["secs"],
+               flags=L["flags"], ciaddr=ip4(L["ciaddr"]), yiaddr=ip4(L["yiaddr"]), siaddr=ip4(L["siaddr"]),
+               giaddr=ip4(L["giaddr"]), chaddr=EthAddr(ch[:6]) if L["hlen"] == 6 else ch,
+               sname=bytes(L["sname"]), file=bytes(L["file"]), magic=bytes(L["magic"]))
+  for x in L["opts"]:
+    if x["k"] != 0:
+      o.options[x["k"]] = dhcp_opt(x["k"], x["d"])
+  return o
+
+
+def name_str(nm):
+  return ".".join(bytes(l).decode("latin-1") for l in nm)
+
+
+def name_labels(t):
+  return [list(l.encode("latin-1")) for l in t.split(".")] if t else []
+
+
+def b_dns(L):
+  o = pkt.dns(id=L["ident"], qr=bool(L["qr"]), opcode=L["opcode"], aa=bool(L["aa"]), tc=bool(L["tc"]),
+              rd=bool(L["rd"]), ra=bool(L["ra"]), z=bool(L["z"]), ad=bool(L["ad"]), cd=bool(L["cd"]), rcode=L["rcode"])
+  for q in L["qs"]:
+    o.questions.append(pkt.dns.question(name_str(q["name"]), q["qtype"], q["qclass"]))
+  for lst, key in ((o.answers, "ans"), (o.authorities, "auth"), (o.additional, "add")):
+    for r in L[key]:
+      d = r["rd"]["d"]
+      if r["rd"]["k"] == "name":
+        data = name_str(d)
+      elif r["type"] == 1 and len(d) == 4:
+        data = ip4(d)
+      elif r["type"] == 28 and len(d) == 16:
+        data = ip6(d)
+      else:
+        data = bytes(d)
+      lst.append(pkt.dns.rr(name_str(r["name"]), r["type"], r["class"], u(r["ttl"]), 0, data))
+  return o
+
+
+def v_dns(o):
+  def rr(r):
+    if r.qtype in W.NAME_TYPES:
+      rd = {"k": "name", "d": name_labels(r.rddata)}
+    else:
+      rd = {"k": "raw", "d": addr_bytes(r.rddata, 0)}
+    return {"name": name_labels(r.name), "type": r.qtype, "class": r.qclass, "ttl": bl(r.ttl, 4), "rd": rd}
+  d = {"p": "dns", "ident": o.id, "opcode": o.opcode, "rcode": o.rcode, "cmp": 0}
+  for f in ("qr", "aa", "tc", "rd", "ra", "z", "ad", "cd"):
+    d[f] = int(bool(getattr(o, f)))
+  d["qs"] = [{"name": name_labels(q.name), "qtype": q.qtype, "qclass": q.qclass} for q in o.questions]
+  d["ans"] = [rr(r) for r in o.answers]
+  d["auth"] = [rr(r) for r in o.authorities]
+  d["add"] = [rr(r) for r in o.additional]
+  d.update(qd=len(d["qs"]), an=len(d["ans"]), ns=len(d["auth"]), ar=len(d["add"]))
+  return d
+
+
+def nd_opt(x):
+  t, d = x["t"], x["d"]
+  if t == 1 and len(d) == 6:
+    return ICMP6.NDOptSourceLinkLayerAddress(address=mac(d))
+  if t == 2 and len(d) == 6:
+    return ICMP6.NDOptTargetLinkLayerAddress(address=mac(d))
+  if t == 3 and len(d) == 30 and d[1] & 0x3f == 0 and d[10:14] == [0, 0, 0, 0]:
+    return ICMP6.NDOptPrefixInformation(prefix_length=d[0], on_link=bool(d[1] & 0x80), is_autonomous=bool(d[1] & 0x40),
+                                        valid_lifetime=u(d[2:6]), preferred_lifetime=u(d[6:10]), prefix=ip6(d[14:]))
+  if t == 5 and len(d) == 6 and d[:2] == [0, 0]:
+    return ICMP6.NDOptMTU(mtu=u(d[2:]))
+  o = ICMP6.NDOptionGeneric()
+  o.TYPE = t
+  o.raw = bytes(d)
+  return o
+
+
+def nd_opt_view(o):
+  if isinstance(o, ICMP6.NDOptLinkLayerAddress):
+    return {"t": o.TYPE, "d": list(o.address.raw)}
+  if isinstance(o, ICMP6.NDOptPrefixInformation):
+    return {"t": 3, "d": [o.prefix_length, o.flags] + bl(o.valid_lifetime, 4) + bl(o.preferred_lifetime, 4)
+            + [0, 0, 0, 0] + list(o.prefix.raw)}
+  if isinstance(o, ICMP6.NDOptMTU):
+    return {"t": 5, "d": [0, 0] + bl(o.mtu, 4)}
+  return {"t": o.TYPE, "d": list(o.raw)}
+
+
+def b_ns(L):
+  return ICMP6.NDNeighborSolicitation(target=ip6(L["target"]), options=[nd_opt(x) for x in L["opts"]])
+
+
+def b_na(L):
+  return ICMP6.NDNeighborAdvertisement(target=ip6(L["target"]), is_router=bool(L["r"]), is_solicited=bool(L["sol"]),
+                                       is_override=bool(L["ovr"]), options=[nd_opt(x) for x in L["opts"]])
+
+
+def b_rs(L):
+  return ICMP6.NDRouterSolicitation(options=[nd_opt(x) for x in L["opts"]])
+
+
+def b_ra(L):
+  return ICMP6.NDRouterAdvertisement(hop_limit=L["hoplimit"], is_managed=bool(L["m"]), is_other=bool(L["o"]),
+                                     lifetime=L["lifetime"], reachable=u(L["reachable"]),
+                                     retrans_timer=u(L["retrans"]), options=[nd_opt(x) for x in L["opts"]])
+
+
+def b_unreach6(L):
+  return ICMP6.unreach(unused=u(L["unused4"]))
+
+
+def b_toobig(L):
+  return ICMP6.PacketTooBig(mtu=u(L["mtu4"]))
+
+
+def b_timex6(L):
+  return ICMP6.TimeExceeded()
+
+
 BUILD = {"eth": b_eth, "vlan": b_vlan, "llc": b_llc, "arp": b_arp, "ipv4": b_ipv4, "icmp": b_icmp, "echo": b_echo,
          "unreach": b_unreach, "timex": b_timex, "udp": b_udp, "tcp": b_tcp, "mpls": b_mpls, "ipv6": b_ipv6,
-         "icmp6": b_icmp6, "echo6": b_echo6, "lldp": b_lldp}
+         "icmp6": b_icmp6, "echo6": b_echo6, "lldp": b_lldp, "gre": b_gre, "vxlan": b_vxlan, "igmp": b_igmp,
+         "igmp3": b_igmp3, "rip": b_rip, "eapol": b_eapol, "eap": b_eap, "dhcp": b_dhcp, "dns": b_dns, "ns": b_ns, "na": b_na,
+         "rs": b_rs, "ra": b_ra, "unreach6": b_unreach6, "toobig": b_toobig, "timex6": b_timex6}
+USER_LENGTHS = ("eapol", "eap")      # headers whose length field the library leaves to the caller
 
 
 def build(stack):
   objs = []
-  for L in stack:
+  filled = None
+  for i, L in enumerate(stack):
     if L["p"] in ("raw", "rawb"):
       objs.append(W.raw_bytes(L))
+    elif L["p"] in USER_LENGTHS:
+      filled = filled or W.assemble(stack)[1]
+      objs.append(BUILD[L["p"]](filled[i]))
     else:
       objs.append(BUILD[L["p"]](L))
   for outer, inner in zip(objs, objs[1:]):
-    outer.payload = inner
+    if isinstance(outer, pkt.igmp):
+      outer.extra = inner           # the library keeps what follows an IGMP message in .extra
+    else:
+      outer.payload = inner
   return objs[0]
 
 
 # --------------------------------------------------------------------------
 # view: library object chain -> abstract layers
 
-def fixed_view(p, o, attr):
+def fixed_view(p, o, attr, given=None):
   out = {"p": p}
   for e in W.layouts()[p]:
+    if given and e["n"] in given:
+      out[e["n"]] = given[e["n"]]
+      continue
     v = getattr(o, attr.get(e["n"], e["n"]))
     if e["k"] == "b":
       v = addr_bytes(v, e["w"] // 8)
@@ -292,7 +504,8 @@ def v_arp(o):
 
 
 def v_ipv4(o):
-  d = fixed_view("ipv4", o, {"ident": "id"})
+  fl = o.flags                           # three bits: reserved, DF, MF (anything wider shows up in rf)
+  d = fixed_view("ipv4", o, {"ident": "id"}, {"rf": fl >> 2, "df": (fl >> 1) & 1, "mf": fl & 1})
   d["opts"] = list(o.raw_options)
   return d
 
@@ -345,10 +558,85 @@ def v_lldp(o):
   return {"p": "lldp", "tlvs": [tlv_view(x) for x in o.tlvs]}
 
 
+def v_gre(o):
+  c = o.csum is not None
+  return {"p": "gre", "c": int(c), "k": int(o.key is not None), "sq": int(o.seq is not None), "recur": o.recursion,
+          "ver": o.ver, "type": o.type, "csum": o.csum if c else 0, "offset": o.route_offset if c else 0,
+          "key": bl(o.key, 4) if o.key is not None else [], "seq": bl(o.seq, 4) if o.seq is not None else []}
+
+
+def v_vxlan(o):
+  return {"p": "vxlan", "flags": 8 if o.vni is not None else 0, "rsv1": 0, "vni": o.vni or 0, "rsv2": 0}
+
+
+def v_igmp(o):
+  if o.ver_and_type == 0x22:
+    return {"p": "igmp3", "csum": o.csum,
+            "recs": [{"t": r.type, "group": list(r.address.raw), "srcs": [list(a.raw) for a in r.source_addresses],
+                      "aux": list(r.aux)} for r in o.group_records]}
+  return fixed_view("igmp", o, {"vtype": "ver_and_type", "mrt": "max_response_time", "group": "address"})
+
+
+def v_rip(o):
+  d = {"p": "rip", "command": o.command, "version": o.version, "zero": 0}     # parse() insists on the zero field
+  d["entries"] = [{"af": e.address_family, "tag": e.route_tag, "ip": list(e.ip.raw), "mask": list(e.netmask.raw),
+                   "nexthop": list(e.next_hop.raw), "metric": bl(e.metric & 0xffffffff, 4)} for e in o.entries]
+  return d
+
+
+def v_eapol(o):
+  return fixed_view("eapol", o, {})
+
+
+def v_eap(o):
+  return fixed_view("eap", o, {"ident": "id"})
+
+
+def v_dhcp(o):
+  d = fixed_view("dhcp", o, {})
+  if len(d["chaddr"]) == 6:
+    d["chaddr"] = d["chaddr"] + [0] * 10
+  d["opts"] = [dhcp_opt_view(k, v) for k, v in o.options.items()]
+  return d
+
+
+def v_nd(p):
+  def f(o):
+    if p == "ns":
+      d = {"p": p, "rsv": [0, 0, 0, 0], "target": list(o.target.raw)}
+    elif p == "na":
+      d = {"p": p, "r": int(bool(o.is_router)), "sol": int(bool(o.is_solicited)), "ovr": int(bool(o.is_override)),
+           "rsv5": 0, "rsv": 0, "target": list(o.target.raw)}
+    elif p == "rs":
+      d = {"p": p, "rsv": [0, 0, 0, 0]}
+    else:
+      d = {"p": p, "hoplimit": o.hop_limit, "m": int(bool(o.is_managed)), "o": int(bool(o.is_other)), "rsv6": 0,
+           "lifetime": o.lifetime, "reachable": bl(o.reachable, 4), "retrans": bl(o.retrans_timer, 4)}
+    d["opts"] = [nd_opt_view(x) for x in o.options]
+    return d
+  return f
+
+
+def v_unreach6(o):
+  return fixed_view("unreach6", o, {"unused4": "unused"})
+
+
+def v_toobig(o):
+  return fixed_view("toobig", o, {"mtu4": "mtu"})
+
+
+def v_timex6(o):
+  return {"p": "timex6", "unused4": [0, 0, 0, 0]}
+
+
 VIEW = [(pkt.ethernet, v_eth), (pkt.vlan, v_vlan), (pkt.llc, v_llc), (pkt.arp, v_arp), (pkt.ipv4, v_ipv4),
         (pkt.icmp, v_icmp), (ICMP.echo, v_echo), (ICMP.unreach, v_unreach), (ICMP.time_exceeded, v_timex),
         (pkt.udp, v_udp), (pkt.tcp, v_tcp), (pkt.mpls, v_mpls), (pkt.ipv6, v_ipv6), (pkt.icmpv6, v_icmp6),
-        (ICMP6.echo, v_echo6), (pkt.lldp, v_lldp)]
+        (ICMP6.echo, v_echo6), (pkt.lldp, v_lldp), (pkt.gre, v_gre), (pkt.vxlan, v_vxlan), (pkt.igmp, v_igmp),
+        (pkt.rip, v_rip), (pkt.eapol, v_eapol), (pkt.eap, v_eap), (pkt.dhcp, v_dhcp), (pkt.dns, v_dns),
+        (ICMP6.NDNeighborSolicitation, v_nd("ns")), (ICMP6.NDNeighborAdvertisement, v_nd("na")),
+        (ICMP6.NDRouterSolicitation, v_nd("rs")), (ICMP6.NDRouterAdvertisement, v_nd("ra")),
+        (ICMP6.unreach, v_unreach6), (ICMP6.PacketTooBig, v_toobig), (ICMP6.TimeExceeded, v_timex6)]
 
 
 def norm_tcp(d):
@@ -360,6 +648,8 @@ def norm_tcp(d):
         break
       out.append(x)
     d["opts"] = out
+  elif d.get("p") == "dhcp":
+    d["opts"] = [x for x in d["opts"] if x["k"] != 0]       # pad options carry no information
   return d
 
 
@@ -419,7 +709,7 @@ class Adapter(object):
       else:
         out.append({"p": "?" + type(o).__name__})
         break
-      o = o.next
+      o = o.extra if isinstance(o, pkt.igmp) else o.next
     return out
 
   # -- actions
@@ -442,6 +732,24 @@ class Adapter(object):
     if a == "Parse":
       self.parsed = pkt.ethernet(raw=self.wire)
       return {"view": self.view(self.parsed)}
+    if a == "Edit":
+      old = self._payload()
+      o = self.parsed
+      for _ in range(40):
+        nxt = o.extra if isinstance(o, pkt.igmp) else o.next
+        if isinstance(nxt, packet_base) and nxt.parsed:
+          o = nxt
+          continue
+        break
+      cur = nxt.raw if isinstance(nxt, packet_base) else nxt
+      if cur != old:
+        return {"ok": False, "innermost_payload": "not-the-payload"}
+      self.stack = self.stack[:-1] + [dict(args)]
+      if isinstance(o, pkt.igmp):
+        o.extra = self._payload()
+      else:
+        o.payload = self._payload()
+      return {"ok": True}
     if a == "Repack":
       return self._split(self.parsed.pack())
     raise ValueError(a)
